@@ -20,6 +20,7 @@ pub struct GenOpts {
     pub domain: i64,
     pub max_edb: usize,
     pub rec_arith: u32, // percent chance a recursive IDB gets a bounded counter column
+    pub near_tc: u32,   // percent chance a self-recursive IDB is a transitive-closure look-alike
 }
 impl Default for GenOpts {
     fn default() -> Self {
@@ -38,6 +39,7 @@ impl Default for GenOpts {
             domain: 5,
             max_edb: 10,
             rec_arith: 5,
+            near_tc: 25,
         }
     }
 }
@@ -378,6 +380,62 @@ fn gen_program_once(r: &mut Rng, o: &GenOpts) -> GenProgram {
         }
         if g.pct(o.rec) {
             g.tags.insert("rec_self");
+            if g.pct(o.near_tc) {
+                // transitive-closure look-alikes: one binary base clause over an edge relation and one
+                // recursive clause joining an edge atom with the recursive atom, with every choice of join
+                // columns, atom order and head projection (the exact TC is one of them). Engines special-case
+                // the exact shape; its neighbours must not be mistaken for it.
+                g.tags.insert("near_tc");
+                arity.insert(name.clone(), 2);
+                let v = |s: &str| Term::Var(s.to_string());
+                let edge = |g: &mut G, x: &str, y: &str| -> Atom {
+                    match g.r.below(10) {
+                        0..=5 => Atom { rel: "a".into(), args: vec![v(x), v(y)] },
+                        6..=8 => Atom { rel: "b".into(), args: vec![v(x), v(y)] },
+                        _ => match g.r.below(3) {
+                            0 => Atom { rel: "d".into(), args: vec![v(x), v(y), Term::Wild] },
+                            1 => Atom { rel: "d".into(), args: vec![Term::Wild, v(x), v(y)] },
+                            _ => Atom { rel: "d".into(), args: vec![v(x), Term::Wild, v(y)] },
+                        },
+                    }
+                };
+                let e1 = edge(&mut g, "X", "Y");
+                let (h1, h2) = if g.pct(55) { ("X", "Y") } else { *g.r.pick(&[("Y", "X"), ("X", "X"), ("Y", "Y"), ("X", "Y")]) };
+                let mut bbody = vec![Lit::Pos(e1.clone())];
+                if g.pct(12) {
+                    bbody.push(Lit::Cmp(v("X"), *g.r.pick(&[Cmp::Lt, Cmp::Le, Cmp::Ne]), v("Y")));
+                }
+                let base = Clause { head: name.clone(), hargs: vec![HeadArg::T(v(h1)), HeadArg::T(v(h2))], body: bbody };
+                let mut recs = Vec::new();
+                for _ in 0..(if g.pct(15) { 2 } else { 1 }) {
+                    // edge atom: same relation and orientation as the base in most cases
+                    let mut e2 = if g.pct(75) { e1.clone() } else { edge(&mut g, "X", "Y") };
+                    let (ea, eb, ra, rb) = *g.r.pick(&[("X", "Y", "Y", "Z"), ("X", "Y", "Y", "Z"), ("Y", "Z", "X", "Y"), ("Y", "Z", "X", "Y"), ("X", "Y", "Z", "Y"), ("Y", "X", "Y", "Z"), ("X", "Y", "X", "Z")]);
+                    // rename the edge atom's variables (its first variable slot is X, the second Y)
+                    for t in e2.args.iter_mut() {
+                        if let Term::Var(n) = t {
+                            *n = if n == "X" { ea.to_string() } else { eb.to_string() };
+                        }
+                    }
+                    let ratom = Atom { rel: name.clone(), args: vec![v(ra), v(rb)] };
+                    let (g1, g2) = if g.pct(55) { ("X", "Z") } else { *g.r.pick(&[("X", "Y"), ("Z", "X"), ("Y", "Z"), ("X", "X"), ("Z", "Y"), ("X", "Z")]) };
+                    let mut body = if g.pct(50) { vec![Lit::Pos(e2), Lit::Pos(ratom)] } else { vec![Lit::Pos(ratom), Lit::Pos(e2)] };
+                    if g.pct(10) {
+                        body.push(Lit::Cmp(v("X"), *g.r.pick(&[Cmp::Lt, Cmp::Ne, Cmp::Ge]), v("Z")));
+                    }
+                    recs.push(Clause { head: name.clone(), hargs: vec![HeadArg::T(v(g1)), HeadArg::T(v(g2))], body });
+                }
+                if g.pct(50) {
+                    clauses.push(base);
+                    clauses.extend(recs);
+                } else {
+                    clauses.extend(recs);
+                    clauses.push(base);
+                }
+                avail.push((name, 2));
+                i += 1;
+                continue;
+            }
             if ar >= 2 && g.pct(o.rec_arith) {
                 // bounded counter: p(.., D) <- p(.., D1), e(..), D = D1 + 1, D < k
                 g.tags.insert("rec_arith");
